@@ -102,7 +102,11 @@ def ackKindTable : List (Nat × AckKind) :=
   [(0x0801, .readMem), (0x0803, .writeMem), (0x0805, .pending), (0x0807, .readMemStacked),
    (0x0809, .writeMemStacked)]
 
-def ackKindOfId (id : Nat) : Option AckKind := ackKindTable.lookup id
+def lookupId {α : Type} (id : Nat) : List (Nat × α) → Option α
+  | [] => none
+  | (i, a) :: rest => if id = i then some a else lookupId id rest
+
+def ackKindOfId (id : Nat) : Option AckKind := lookupId id ackKindTable
 
 def magicOf (bs : Bytes) : Nat := uintAt bs 0 4
 def statusCodeOf (bs : Bytes) : Nat := uintAt bs 4 2
@@ -172,6 +176,12 @@ def encodeEvent (e : Event) : Bytes :=
 /-- single-event form: size field 0 -/
 def encodeSingleEvent (e : Event) : Bytes :=
   toLE 2 0 ++ toLE 2 e.id ++ toLE 8 e.timestamp ++ e.data
+
+/-- events: all in multi-event form, optionally followed by one in single-event form -/
+def encodeEvents : List Event → Option Event → Bytes
+  | [], none => []
+  | [], some e => encodeSingleEvent e
+  | e :: es, last => encodeEvent e ++ encodeEvents es last
 
 def encodeEventPacket (flag requestId : Nat) (scd : Bytes) : Bytes :=
   toLE 4 EVENT_MAGIC ++ toLE 2 flag ++ toLE 2 EVENT_COMMAND_ID ++ toLE 2 scd.length
